@@ -167,6 +167,7 @@ class E2Contract:
         return {n: rng.uniform(-1.5, 1.5) for n in names}
 
     frame = True                 # compare every array input before / after (C13 built in)
+    may_raise = False            # True: post() judges Raised outcomes itself; False: any exception violates `returns-normally`
 
 
 # ------------------------------------------------------------------ structural helpers
@@ -324,7 +325,7 @@ def verify_config(contract, cfg, tier="quick", seed=0, timeout_s=10.0, spec_fact
                         raise
                     out = Raised(e)
                     rec.tb = "".join(traceback.format_exception(type(e), e, e.__traceback__))[-1500:]
-                clauses = list(contract.post(W, cfg, inp, out))
+                clauses = _post(contract, W, cfg, inp, out)
                 if contract.frame:
                     clauses += frame_clauses(inp, snap)
             except DeadPath:
@@ -416,6 +417,23 @@ def verify_config(contract, cfg, tier="quick", seed=0, timeout_s=10.0, spec_fact
             setattr(can, k, v)
         results.append(can)
     return results
+
+
+def _post(contract, W, cfg, inp, out):
+    if isinstance(out, Raised) and not contract.may_raise:
+        return [Clause("returns-normally", "true", False, None,
+                       f"the call returns normally on every input satisfying requires (raised {out.name})")]
+    try:
+        cls = list(contract.post(W, cfg, inp, out))
+    except (Unsupported, Undecided, DeadPath, PathBudget):
+        raise
+    except Exception as e:  # noqa  -- the contract's own reference computation failed (e.g. a callee under another contract raised)
+        if "qverif" in traceback.format_exc().split("contract.post")[-1] and "repo" not in traceback.format_exc().split("contract.post")[-1]:
+            raise
+        raise Undecided(f"postcondition could not be evaluated: {type(e).__name__}: {str(e)[:200]}")
+    if not contract.may_raise:
+        cls.append(Clause("returns-normally", "true", True, None, "the call returns normally on every input satisfying requires"))
+    return cls
 
 
 def cfg_str(cfg):
@@ -620,7 +638,7 @@ def native_clauses(contract, Wn, cfg, vals):
     except Exception as e:  # noqa
         out = Raised(e)
     res = {}
-    for cl in contract.post(Wn, cfg, inp, out):
+    for cl in _post(contract, Wn, cfg, inp, out):
         res[cl.label] = native_holds(cl)
     if contract.frame:
         for p, a in native_arrays(inp):
